@@ -176,6 +176,22 @@ def run(ctx: Ctx) -> None:
 
     check_option_plumbing(ctx, e, "L2")
 
+    # ---- L7 --------------------------------------------------------------------------------------
+    ctx.rule("L7", "open / load / loads declare the same default for every option they share, and so do dumps / dump / save: called alike they behave alike", 2)
+    for group in (("utils.open", "utils.load", "utils.loads"), ("utils.dumps", "utils.dump", "utils.save")):
+        table: dict = {}
+        for q in group:
+            f_ = repo.func(q)
+            pos = f_.args.args
+            for a_, d_ in list(zip(pos[len(pos) - len(f_.args.defaults) :], f_.args.defaults)) + [(a_, d_) for a_, d_ in zip(f_.args.kwonlyargs, f_.args.kw_defaults) if d_ is not None]:
+                try:
+                    val = fold(d_)
+                except Exception:
+                    val = norm(d_)
+                table.setdefault(a_.arg, {})[q] = val
+        diff = {k: v for k, v in table.items() if len(v) > 1 and len({repr(x) for x in v.values()}) > 1}
+        ctx.check(not diff, "L7", " / ".join(g.split(".")[1] for g in group) + " defaults", repo.loc("utils", repo.func(group[0])), f"{sorted(k for k, v in table.items() if len(v) > 1)} agree", f"the sibling functions disagree on the default of {diff}: the same call gives different results through the file, stream and string front end")
+
     # ---- L6 --------------------------------------------------------------------------------------
     ctx.rule("L6", "the include pre-pass every loader runs by default puts the text back together with exactly the separator it cut it with, so characters of a quoted value (including unusual line breaks) reach the parser unchanged", 1)
     from .c15 import split_join_pairing
@@ -226,9 +242,120 @@ def run(ctx: Ctx) -> None:
     good = good and len(jd) == 1 and jd[0].args and isinstance(jd[0].args[0], ast.Name) and jd[0].args[0].id in asg
     ctx.check(good, "L5", "schema command", repo.loc("cli", sf), "", "schema does not dump get_versioned_schema(version)")
 
+    # ---- L8 --------------------------------------------------------------------------------------
+    ctx.rule("L8", "command-line contract: option defaults equal the defaults of the API parameters they feed, arguments used as one path take one value and the file list takes any number, counted flags are counted, the group callback and 'format' run through (escapes decoded, exit 0)", 12)
+    _cli_contract(ctx, e)
+
     # ---- P11 -------------------------------------------------------------------------------------
     ctx.rule("P11", "validate exits 0 iff every matched file parsed and validated, else with the number of problems, which stays within 1..255 for any count", 20)
     _exit_status(ctx, e)
+
+
+def _click_decls(fn: ast.FunctionDef) -> tuple[dict, dict]:
+    """(arguments, options) declared by the click decorators of a command: parameter name -> keyword dict."""
+    args_, opts_ = {}, {}
+    for d in fn.decorator_list:
+        if not isinstance(d, ast.Call):
+            continue
+        name = dotted(d.func) or ""
+        if name not in ("click.argument", "click.option"):
+            continue
+        names = [a.value for a in d.args if isinstance(a, ast.Constant) and isinstance(a.value, str)]
+        kw = {k.arg: k.value for k in d.keywords if k.arg}
+        if name == "click.argument" and names:
+            args_[names[0].replace("-", "_")] = kw
+        elif names:
+            long = [n for n in names if n.startswith("--")]
+            if long:
+                opts_[long[0].split("/")[0][2:].replace("-", "_")] = kw
+    return args_, opts_
+
+
+def _cli_contract(ctx: Ctx, e) -> None:
+    repo, facts = ctx.repo, e.facts
+    API = {"utils.open": repo.func("utils.open"), "utils.save": repo.func("utils.save"), "utils.validate": repo.func("utils.validate")}
+
+    def api_default(q, pname):
+        f_ = API[q]
+        pos = f_.args.args
+        for a_, d_ in list(zip(pos[len(pos) - len(f_.args.defaults) :], f_.args.defaults)):
+            if a_.arg == pname:
+                return fold(d_)
+        return "<required>"
+
+    for cmd in ("cli.format", "cli.validate", "cli.schema"):
+        fn = repo.func(cmd)
+        loc = repo.loc("cli", fn)
+        cargs, copts = _click_decls(fn)
+        if not cargs:
+            raise AnalysisError(f"anchor vanished: click.argument declarations of {cmd}")
+        # arguments: one value when used as a path, any number when handed to get_mapfiles / iterated
+        for pname, kw in cargs.items():
+            nargs = fold(kw["nargs"]) if "nargs" in kw else 1
+            multi = any(isinstance(c.func, (ast.Name, ast.Attribute)) and (dotted(c.func) or "").endswith("get_mapfiles") and any(isinstance(a, ast.Name) and a.id == pname for a in c.args) for c in calls_in(fn)) or any(isinstance(n, ast.For) and isinstance(n.iter, ast.Name) and n.iter.id == pname for n in ast.walk(fn))
+            want = -1 if multi else 1
+            ctx.check(nargs == want, "L8", f"{cmd.split('.')[1]}: argument {pname} takes {'any number of values' if multi else 'one value'}", loc, f"nargs={nargs}", f"argument {pname} of '{cmd.split('.')[1]}' is declared with nargs={nargs} but the command uses it as {'a list of files' if multi else 'one path'}: click rejects or mis-splits the documented invocation")
+        # options of 'format' (which the property equates with save(open(IN))): default = default of the API parameter the option is passed to
+        for c in calls_in(fn) if cmd == "cli.format" else []:
+            tgt = next((cs.target for cs in facts.calls[cmd] if cs.node is c), None)
+            if tgt not in API:
+                continue
+            bound = bind_args(c, API[tgt])
+            for api_p, a in bound.items():
+                if isinstance(a, ast.Name) and a.id in copts and "default" in copts[a.id]:
+                    dv = fold(copts[a.id]["default"])
+                    av_ = api_default(tgt, api_p)
+                    ctx.check(dv == av_ and type(dv) is type(av_), "L8", f"{cmd.split('.')[1]}: --{a.id} default", loc, f"{dv!r} = default of {tgt.split('.')[1]}({api_p})", f"--{a.id} defaults to {dv!r} but {tgt.split('.')[1]}() defaults {api_p} to {av_!r}: the command without options does not do what the API call without options does")
+    # counted flags used in arithmetic
+    mf = repo.func("cli.main")
+    _, mopts = _click_decls(mf)
+    arith = {n.id for b in ast.walk(mf) if isinstance(b, ast.BinOp) for n in (b.left, b.right) if isinstance(n, ast.Name)}
+    for o in sorted(arith & set(mopts)):
+        ctx.check("count" in mopts[o] and fold(mopts[o]["count"]) is True, "L8", f"main: --{o} is a counted flag", repo.loc("cli", mf), "count=True", f"--{o} is used in arithmetic but not declared count=True: its value is None / a string and the group callback raises for every sub-command")
+    # the group callback runs through for any counts
+    I = e.interp(stubs={"ext:logging.basicConfig": lambda *a: None, "ext:sys.stderr": SObj("stream", {}), "global:cli.logger": SObj("Logger", {})}, allow_fork=True, max_paths=8)
+    ctxobj = SObj("Context", {}, methods=())
+    outs = I.explore("cli.main", lambda: (None, [ctxobj, SNum.sym("verbose", 0, None), SNum.sym("quiet", 0, None)], {}))
+    bad = [o.exc for o in outs if o.kind != "return"]
+    ctx.check(not bad and bool(outs), "L8", "main: the group callback runs through", repo.loc("cli", mf), f"{len(outs)} path(s)", f"the group callback raises {bad}: every sub-command fails before it starts")
+    # get_mapfiles: every file matched by every pattern, in order; directories dropped
+    globbed = {"*.map": ["a.map", "dir.map", "b.map"], "c.map": ["c.map"]}
+    Ig = e.interp(stubs={"ext:glob.glob": lambda fr, so, a, k: list(globbed.get(a[0] if isinstance(a[0], str) else a[0].concrete(), [])), "ext:os.path.isdir": lambda fr, so, a, k: a[0] == "dir.map", "ext:os.path.isfile": lambda fr, so, a, k: a[0] != "dir.map"}, allow_fork=False)
+    outs = Ig.explore("cli.get_mapfiles", lambda: (None, [("*.map", "c.map")], {}))
+    gm = repo.func("cli.get_mapfiles")
+    ctx.check(len(outs) == 1 and outs[0].kind == "return" and outs[0].value is not None and list(outs[0].value) == ["a.map", "b.map", "c.map"], "L8", "get_mapfiles: the files matched by the patterns, directories dropped", repo.loc("cli", gm), "a.map b.map c.map", f"for the patterns *.map (matching a.map, the directory dir.map, b.map) and c.map, get_mapfiles gives {[(o.kind, o.exc, o.value) for o in outs]}")
+    # format: escapes decoded, options by name, exit status 0
+    rec: dict = {"open": [], "save": [], "exit": []}
+
+    def open_stub(I_, so, a, k):
+        rec["open"].append((list(a), dict(k)))
+        return HDict({"__type__": "map"})
+
+    def save_stub(I_, so, a, k):
+        rec["save"].append((list(a), dict(k)))
+        return a[1] if len(a) > 1 else None
+
+    def exit_stub(fr, so, a, k):
+        rec["exit"].append(a[0] if a else 0)
+        raise pai.PyExc("SystemExit", tuple(a))
+
+    import codecs as _codecs
+
+    stubs = {"utils.open": open_stub, "utils.save": save_stub, "ext:sys.exit": exit_stub, "ext:codecs.decode": lambda fr, so, a, k: _codecs.decode(a[0] if isinstance(a[0], str) else a[0].concrete(), a[1]), "global:cli.logger": SObj("Logger", {})}
+    I2 = e.interp(stubs=stubs, allow_fork=False)
+    indent = SNum.sym("indent", 0, None)
+    outs = I2.explore("cli.format", lambda: (None, [None, "in.map", "out.map", indent, "\\t", "\\'", "\\r\\n", True, False], {}))
+    ff = repo.func("cli.format")
+    o = outs[0]
+    finished = (o.kind == "return") or (o.kind == "raise" and o.exc == "SystemExit")
+    ctx.check(finished and rec["exit"] in ([], [0], [None]), "L8", "format: finishes with exit status 0", repo.loc("cli", ff), f"exit {rec['exit'] or 'by return'}", f"a successful 'format' ends with {o.exc or 'return'} and exit status {rec['exit']}")
+    if len(rec["open"]) == 1 and len(rec["save"]) == 1:
+        oa, ok_ = rec["open"][0]
+        sa_, sk = rec["save"][0]
+        ctx.check(oa[:1] == ["in.map"] and ok_.get("expand_includes") is True and ok_.get("include_comments") is False, "L8", "format: opens IN with the given --expand / --comments", repo.loc("cli", ff), str(ok_), f"open is called with {oa} {ok_}")
+        ctx.check(sk.get("spacer") == "\t" and sk.get("quote") == "'" and sk.get("newlinechar") == "\r\n" and sk.get("indent") is indent and sa_[1:2] == ["out.map"], "L8", "format: saves to OUT with the options given, escape sequences decoded", repo.loc("cli", ff), "spacer TAB, quote ', newlinechar CRLF", f"save is called with {sa_[1:]} {sk}: --spacer=\\t / --quote=\\' / --newlinechar=\\r\\n must arrive as TAB, ' and CR LF, indent as given")
+    else:
+        ctx.finding("L8", "format: one open, one save", repo.loc("cli", ff), f"format calls open {len(rec['open'])}x and save {len(rec['save'])}x")
 
 
 def _exit_status(ctx: Ctx, e) -> None:
@@ -247,7 +374,10 @@ def _exit_status(ctx: Ctx, e) -> None:
         files = [f"f{i}.map" for i in range(len(sc))]
         echo: list = []
 
+        open_kwargs: list = []
+
         def open_stub(fr, self_obj, args, kwargs, sc=sc, files=files):
+            open_kwargs.append(dict(kwargs))
             fn = args[0]
             i = files.index(fn if isinstance(fn, str) else fn.concrete())
             if sc[i] == "fail":
@@ -288,6 +418,8 @@ def _exit_status(ctx: Ctx, e) -> None:
             raise
         n_eval += 1
         o = outs[0]
+        if open_kwargs:
+            ctx.check(all(k.get("include_position") is True for k in open_kwargs), "P11", f"files={sc}: opened with positions", loc, "include_position=True", f"validate opens its files with {open_kwargs[0]}: without include_position=True the messages carry no line and column")
         problems = sum((1 if s == "fail" else s) for s in sc)
         if o.kind == "raise" and o.exc == "SystemExit":
             status = o.value[0] if o.value else 0
@@ -347,6 +479,10 @@ def _exit_status(ctx: Ctx, e) -> None:
             lo = hi = v
         else:
             lo = hi = None
+        for exact in (1, 254, 255):
+            env2 = {n: exact for n in names & counters}
+            v2 = pai.Frame(I, "cli.validate", vf, env2).eval(c.args[0])
+            ctx.check(v2 == exact, "P11", f"exit argument for a count of {exact}", repo.loc("cli", c), f"sys.exit({norm(c.args[0])}) = {v2}", f"with {exact} problems sys.exit({norm(c.args[0])}) is called with {v2!r}: the status is not the number of problems although it fits")
         good = lo is not None and hi is not None and lo >= 1 and hi <= 255
         ctx.check(good, "P11", "exit argument for an unbounded count", repo.loc("cli", c), f"sys.exit({norm(c.args[0])}) in [{lo}, {hi}]", f"sys.exit({norm(c.args[0])}) ranges over [{lo}, {'inf' if hi is None else hi}] when the count is >= 1: 256 problems wrap to exit status 0")
     ctx.units["cli_scenarios_evaluated"] = n_eval
